@@ -112,18 +112,19 @@ PROPS = {
         "targets": ["spowtd.simulate_rise:compute_rise_curve", "spowtd.simulate_rise:compute_rise_curve#mean",
                     "lemma:shifted_sum", "spowtd.specific_yield:SpecificYield.integrate",
                     "spowtd.spline:Spline.integrate", "lemma:telescoping",
-                    "spowtd.simulate_rise:simulate_rise#observations"],
+                    "spowtd.simulate_rise:simulate_rise#observations", "spowtd.simulate_rise:simulate_rise#table"],
         "bounded": [{"run": "bounded.simulate_checks:run_C17",
-                     "what": "refinement / monotonicity corollaries, validation of the assumed constructor contract and the tabulated "
-                             "(non --observations) output of simulate_rise (real functions, master-curve tables in a database built "
+                     "what": "refinement / monotonicity corollaries, validation of the assumed constructor contract and the file actually written by "
+                             "simulate_rise (real functions, master-curve tables in a database built "
                              "from the real schema)"}],
         "level_text": "Unbounded proof that compute_rise_curve returns, for any grid, values whose pairwise differences are "
                       "G(level_j) - G(level_i), G being the antiderivative of the specific yield from C14's proved contract "
                       "(loop invariant + telescoping lemma proved by induction), and whose mean is the requested one (shifted-sum "
                       "lemma, real arithmetic). At command level, `simulate rise --observations` is under contract: the one value it "
                       "dumps is that curve on exactly the measured master-curve levels in ascending order, with the mean of the "
-                      "measured storage (the call site relies on both verified contracts of compute_rise_curve). The tabulated "
-                      "output (strings mixed with numbers) is a bounded stand-in.",
+                      "measured storage (the call site relies on both verified contracts of compute_rise_curve); without "
+                      "--observations the one table dumped holds, after its header row, (level in mm, measured storage, simulated "
+                      "storage) per measured level in ascending order (texts and numbers in one table: guarded pairs).",
         "level_note": "Assumed: numpy cumsum / mean as in libspec; the FITPACK contracts of C14; create_specific_yield_function "
                       "(constructors, PyYAML) returns a specific-yield object over a non-degenerate spline; what yaml.dump writes for "
                       "a list of floats (bounded).",
@@ -133,7 +134,8 @@ PROPS = {
                     "spowtd.specific_yield:SpecificYield.__call__",
                     "spowtd.spline:Spline.__call__", "lemma:telescoping",
                     "spowtd.simulate_recession:simulate_recession",
-                    "spowtd.simulate_recession:dump_simulated_recession#observations"],
+                    "spowtd.simulate_recession:dump_simulated_recession#observations",
+                    "spowtd.simulate_recession:dump_simulated_recession#table"],
         "bounded": [{"run": "bounded.simulate_checks:run_C18",
                      "what": "corollaries (direction, reversal, water balance at zero curvature), validation of the SQL contracts (the ET "
                              "average over the recession intervals' steps) and of the assumed constructor contracts, and the tabulated "
@@ -147,7 +149,9 @@ PROPS = {
                       "has the mean of the measured elapsed times, curvature enters as m/km2 x 1e-3, the PEATCLSM transmissivity as "
                       "m2/s x 86400, and every precondition of compute_recession_curve (positive transmissivity, non-negative ET and "
                       "curvature, not both zero) is discharged at the call site; `simulate recession --observations` dumps exactly "
-                      "that curve from the highest level to the lowest. The tabulated output is a bounded stand-in.",
+                      "that curve from the highest level to the lowest; without --observations the one table dumped holds, after its "
+                      "header row, (level in MILLIMETRES = cm x 10, measured, simulated elapsed time) from the highest level down "
+                      "(re-introducing defect D8 -- centimetres under a 'mm' heading -- is refuted by this postcondition).",
         "level_note": "Assumed: quad returns the exact integral; create_specific_yield_function / create_transmissivity_function "
                       "(constructors, PyYAML) return a specific-yield object over a non-degenerate spline / a positive function; the "
                       "dataset precondition 'site curvature >= 0 and (curvature > 0 or mean ET > 0)'; the SQL statements (incl. what "
